@@ -267,7 +267,9 @@ def lower(stmts_or_lines, dialect):
 
 
 class Machine:
-    def __init__(self, prog, sem, *, init_mode="symbolic", lib=None, refmap=None, record_calls=True):
+    def __init__(self, prog, sem, *, init_mode="symbolic", lib=None, refmap=None, record_calls=True, interp_strings=False, for_semantics=None):
+        self.interp_strings = interp_strings  # LEN / MID$ / LEFT$ / RIGHT$ / FIX get their meaning (C20) instead of staying uninterpreted
+        self.for_semantics = for_semantics  # None: zero-trip loops end the path as outside; 'pretest' / 'bodyonce': run that reading
         self.p = prog
         self.sem = sem
         self.dialect = prog.dialect
@@ -288,6 +290,9 @@ class Machine:
 
     # ------------------------------------------------------------- expression evaluation
     def kind_of_name(self, name):
+        d = self.p.decls.get(name.upper()) or self.p.decls.get(name)
+        if d is not None and d[1] in ("string", "real", "integer", "byte", "boolean"):
+            return {"string": "s", "boolean": "b"}.get(d[1], "n")
         return "s" if name.endswith("$") else "n"
 
     def read_var(self, st, name):
@@ -427,6 +432,8 @@ class Machine:
             ident = a[1] if a[0] in ("var", "idx") else repr(a)
             extra = [self.num(st, x) for x in a[2]] if a[0] == "idx" else []
             return ("n", sem.apply("ADDR_" + ident.upper().replace("$", "_S"), extra, "n"))
+        if self.interp_strings and name in ("LEN", "MID$", "LEFT$", "RIGHT$", "FIX", "INT"):
+            return self.interpreted(st, name, args)
         sig = CB_SIG.get(name)
         if sig is None:
             vals = [self.ev(st, a) for a in args]
@@ -446,6 +453,32 @@ class Machine:
         if self.dialect == "cb" and name in cbfront.CONVERTIBLE:
             return (res, self.convertible(st, name, vals, res))
         return (res, sem.apply(fname, vals, res))
+
+    def interpreted(self, st, name, args):
+        """BASIC09 string functions on z3 sequences (real mode); positions are 1-based"""
+        toint = lambda t: z3.ToInt(t)  # noqa: E731  floor; arguments are assumed non-negative where it matters
+        toreal = lambda t: z3.ToReal(t)  # noqa: E731
+        if name == "LEN":
+            return ("n", toreal(z3.Length(self.string(st, args[0]))))
+        if name in ("FIX", "INT"):
+            return ("n", toreal(toint(self.num(st, args[0]))))
+        sv = self.string(st, args[0])
+        n = z3.Length(sv)
+        if name == "MID$":
+            i = toint(self.num(st, args[1]))
+            k = toint(self.num(st, args[2]))
+            if i.sort() != z3.IntSort():
+                raise TypeErr("MID$ index")
+            # MID$(s, i, k): k characters from position i (i < 1 is a run-time error in BASIC09; callers keep i >= 1)
+            return ("s", z3.SubString(sv, i - 1, z3.If(k < 0, z3.IntVal(0), k)))
+        if name == "LEFT$":
+            k = toint(self.num(st, args[1]))
+            return ("s", z3.SubString(sv, 0, z3.If(k < 0, z3.IntVal(0), k)))
+        if name == "RIGHT$":
+            k = toint(self.num(st, args[1]))
+            k = z3.If(k > n, n, z3.If(k < 0, z3.IntVal(0), k))
+            return ("s", z3.SubString(sv, n - k, k))
+        raise ValueError(name)
 
     def convertible(self, st, name, vals, res):
         """a function the tool re-routes to a procedure: record the evaluation event, return the contract's value"""
@@ -661,7 +694,29 @@ class Machine:
             if not var[1].upper().startswith("TMP_"):
                 st.trace.append(("for", limit, step))
             body = st.pc + 1
-            if self.dialect == "b09":
+            if self.dialect == "b09" and self.for_semantics == "pretest":
+                v = self.as_num(self.read_var(st, var[1]) if var[0] == "var" else self.ev(st, var))
+                beyond = z3.If(step >= sem.num(0.0), v > limit, v < limit)
+                can_t, can_f = self.feasible(st, beyond)
+                skip_pc = self.match_next.get(st.pc)
+                if skip_pc is None:
+                    raise RunErr("FOR without NEXT")
+                if can_t and can_f:
+                    other = st.clone()
+                    other.cond.append(beyond)
+                    other.pc = skip_pc + 1
+                    st.cond.append(z3.Not(beyond))
+                    st.forstack.append((var, limit, step, body))
+                    st.pc = body
+                    self.stats["forks"] += 1
+                    return [st, other]
+                if can_t:
+                    st.pc = skip_pc + 1
+                    return True
+                st.forstack.append((var, limit, step, body))
+                st.pc = body
+                return True
+            if self.dialect == "b09" and self.for_semantics is None:
                 v = self.as_num(self.read_var(st, var[1]) if var[0] == "var" else self.ev(st, var))
                 beyond = z3.If(step >= sem.num(0.0), v > limit, v < limit)
                 can_t, can_f = self.feasible(st, beyond)
